@@ -9,8 +9,8 @@ from common import (NCPU, REPLAYS, HarnessError, bisect_crash, cargo_build, extr
 PROP = "C12"
 
 BUDGET = {
-    "quick": {"enum": "quick", "sampled": 2_000_000, "miri_shapes": 128, "miri_procs": 8, "w2": 500_000, "w2_miri": 32},
-    "thorough": {"enum": "thorough", "sampled": 300_000_000, "miri_shapes": 3000, "miri_procs": 16, "w2": 50_000_000, "w2_miri": 600},
+    "quick": {"enum": "quick", "sampled": 2_000_000, "miri_shapes": 128, "miri_procs": 8, "w2": 500_000, "w2_miri": 32, "cpp": 40_000},
+    "thorough": {"enum": "thorough", "sampled": 300_000_000, "miri_shapes": 3000, "miri_procs": 16, "w2": 50_000_000, "w2_miri": 600, "cpp": 4_000_000},
 }
 
 
@@ -134,6 +134,20 @@ def check(tier, seed):
             violations += viols
         log("[C12] macro write methods: %d violations (%.1fs)" % (len(viols), time.time() - t1))
 
+    # ---- phase 5: the C++ owner (WriteFromString/_grow/_flush of the generated diplomat_runtime.hpp) and the
+    # std::string returned by generated wrappers, under ASan, c++17 and c++20 (I9)
+    cpp_cov = None
+    if not violations:
+        t1 = time.time()
+        import c03_cpp
+        cpp_cov, viols, _known = c03_cpp.run_prop(PROP, tier, seed, b["cpp"])
+        violations += viols
+        totals["evaluations"] += cpp_cov["runs"]
+        totals["distinct_nontrivial"] += cpp_cov["distinct_nontrivial"]
+        for k, v in cpp_cov["counters"].items():
+            counters["cpp_" + k] = counters.get("cpp_" + k, 0) + v
+        log("[C12] C++ string output (ASan): %d traces, %d violations (%.1fs)" % (cpp_cov["runs"], len(viols), time.time() - t1))
+
     wall = time.time() - t0
     fault_counts = {k: v for k, v in counters.items() if k.startswith("fault_")}
     probes = {k: v for k, v in counters.items() if k.startswith("probe_")}
@@ -150,13 +164,15 @@ def check(tier, seed):
         "exhaustive": False,
         "enumeration_exhaustive_within_bounds": enum_exhaustive,
         "phases": phases,
-        "fault_kinds_fired": {**fault_counts, **{k: v for k, v in counters.items() if k.startswith("l2_fault_")}},
+        "fault_kinds_fired": {**fault_counts, **{k: v for k, v in counters.items() if k.startswith("l2_fault_") or k.startswith("cpp_fault_")}},
+        "cpp_layer": cpp_cov,
         "reach_probes": probes,
         "other_counters": {k: v for k, v in counters.items() if not k.startswith("fault_") and not k.startswith("probe_")},
         "logical_steps_simulated": counters.get("ops", 0),
         "runs_per_hour": int(totals["evaluations"] / max(wall, 1e-9) * 3600),
         "components": {
             "real": ["runtime/src/write.rs: impl fmt::Write for DiplomatWrite, DiplomatWrite::flush, diplomat_simple_write, diplomat_buffer_write_create/get_bytes/len/destroy (compiled from the tree under test)",
+                     "tool/templates/cpp/runtime.hpp.jinja WriteFromString/_grow/_flush and the generated std::string-returning wrappers (diplomat-tool cpp output for vbridge, g++ c++17/c++20, ASan)",
                      "macro/src/lib.rs: flush emission in the extern \"C\" wrappers of &mut DiplomatWrite methods (vbridge describe/describe_n/try_describe, real proc macro)"],
             "stub": ["the buffer owner (grow/flush callbacks, allocation, relocation) — played by the simulator from the trace"],
             "executed_under": ["native release build with debug assertions, 16-byte canaries, 0xA5 never-written filler behind cap, poisoned graveyard of released buffers", "Miri (exact-size allocations, freed-on-relocate buffers)"],
@@ -176,9 +192,13 @@ def check(tier, seed):
 
 
 def replay(path):
-    if "(write-l2)" in open(path).read().split("\n", 1)[0]:
+    head = open(path).read().split("\n", 1)[0]
+    if "(write-l2)" in head:
         import c03
         return c03.replay(path)
+    if "cpp-trace" in head:
+        import c03_cpp
+        return c03_cpp.replay(path)
     bindir = cargo_build(["write-sim"])
     rc, out, err = run_capture([os.path.join(bindir, "write-sim"), "replay", path])
     print(out, end="")
